@@ -45,6 +45,9 @@ type c17Case struct {
 	// definition's own on-open / on-close steps (acquire-priv without target, send-command) must
 	// then work at THAT level
 	UserDefault string `json:"user_default,omitempty"`
+	// Prior: history in the same process: "variant:<v>" = that variant of the same definition was
+	// built earlier, "default" = the plain platform was.  What was built earlier changes nothing.
+	Prior string `json:"prior,omitempty"`
 }
 
 type y17Level struct {
@@ -176,6 +179,18 @@ func runC17(seed uint64, n int, tier string) {
 		if err == nil {
 			for v := range def.Variants {
 				cases = append(cases, &c17Case{Name: name, Variant: v})
+				cases = append(cases, &c17Case{Name: name, Variant: v, Prior: "default"})
+				pc := &c17Case{Name: name, Prior: "variant:" + v, DefSeg: 0}
+				if len(lv) > 0 {
+					pc.Start = lv[0]
+					if pairs[0] != nil {
+						pc.Pairs = pairs
+						if len(pc.Pairs) > 6 {
+							pc.Pairs = pc.Pairs[:6]
+						}
+					}
+				}
+				cases = append(cases, pc)
 			}
 		}
 		// a user's default desired level layered on the definition: two levels other than the definition's
@@ -258,6 +273,21 @@ func runC17Case(id string, c *c17Case) {
 	popts := []util.Option{options.WithCustomTransport(tr), options.WithReadDelay(20 * time.Microsecond), options.WithTimeoutOps(400 * time.Millisecond)}
 	if c.UserDefault != "" {
 		popts = append(popts, options.WithDefaultDesiredPriv(c.UserDefault))
+	}
+	if c.Prior != "" {
+		// the earlier platform of the history, on a transport of its own
+		ptr := sim.NewTransport(&sim.PrivDevice{Levels: map[string]*sim.PrivLevel{}, OnAuth: sim.AuthNoAsk})
+		var pp *platform.Platform
+		var perr error
+		if strings.HasPrefix(c.Prior, "variant:") {
+			pp, perr = platform.NewPlatformVariant(c.Name, strings.TrimPrefix(c.Prior, "variant:"), "sim", options.WithCustomTransport(ptr))
+		} else {
+			pp, perr = platform.NewPlatform(c.Name, "sim", options.WithCustomTransport(ptr))
+		}
+		if perr == nil {
+			_, _ = pp.GetNetworkDriver()
+		}
+		cs.Kind += "+after-" + strings.SplitN(c.Prior, ":", 2)[0]
 	}
 	if c.Variant == "" {
 		p, err = platform.NewPlatform(c.Name, "sim", popts...)
